@@ -25,3 +25,7 @@ Fixpoint count_char (c : N) (s : str) : Z :=
 
 (* `c in s` for a one-character c *)
 Definition has_char (c : N) (s : str) : bool := memN c s.
+
+(* s.rsplit(c, k) for a one-character c: split the reversed text from the left and mirror *)
+Definition rsplit_char_max (c : N) (s : str) (k : nat) : list str :=
+  map (@rev N) (rev (split_char_max c (rev s) k)).
